@@ -226,6 +226,8 @@ pub fn docs(tier: Tier) -> Vec<String> {
                 "<table><tr><td class=a>k</td><td>l</td></tr><tr class=b><td>m</td><td class=a><span>n</span></td></tr></table>",
                 "<div id=i><p>k</p></div><div><p id=j>l</p><p>m</p></div>",
                 "<li>k</li><span class=a><span class=a><span class=a>l</span>m</span>n</span>",
+                // an element directly inside <table> is foster-parented in front of the table
+                "<div class=b><p>k</p><table><span class=a>l</span><tr><td>m</td><td class=a>n</td></tr></table><p>o</p></div>",
             ]
             .iter()
             .map(|s| s.to_string()),
